@@ -200,6 +200,12 @@ open Spec in
 def handleBB (args : List String) : Ans :=
   let sb (p : SqSet) : String := showBB (SqSet.toBB p)
   match args with
+  | "fromsqs" :: rest => match rest.mapM sqIdx? with
+    | some l => (showBB (BB.ofList l), sb (SqSet.ofList l))
+    | none => bad
+  | "frombbs" :: rest => match rest.mapM parseBB with
+    | some l => (showBB (BB.unionList l), sb (fun t => l.any (fun b => setOf b t)))
+    | none => bad
   | ["ofsq", s] => match sqIdx? s with
     | some s => (showBB (BB.ofSq s), sb (SqSet.single s))
     | none => bad
@@ -268,12 +274,6 @@ def handleBB (args : List String) : Ans :=
              | none => "none")
           | none => bad)
       | _ => bad
-  | "fromsqs" :: rest => match rest.mapM sqIdx? with
-    | some l => (showBB (BB.ofList l), sb (SqSet.ofList l))
-    | none => bad
-  | "frombbs" :: rest => match rest.mapM parseBB with
-    | some l => (showBB (BB.unionList l), sb (fun t => l.any (fun b => setOf b t)))
-    | none => bad
   | _ => bad
 
 end Chess.Drv
